@@ -38,6 +38,7 @@ import (
 	"sort"
 	"strings"
 	"testing"
+	"time"
 
 	"golang.org/x/sync/errgroup"
 	"google.golang.org/protobuf/types/known/durationpb"
@@ -45,6 +46,7 @@ import (
 	"github.com/tochemey/goakt/v4/internal/address"
 	"github.com/tochemey/goakt/v4/internal/cluster"
 	"github.com/tochemey/goakt/v4/internal/internalpb"
+	"github.com/tochemey/goakt/v4/internal/remoteclient"
 	"github.com/tochemey/goakt/v4/internal/types"
 	"github.com/tochemey/goakt/v4/internal/verif/vsched"
 	"github.com/tochemey/goakt/v4/log"
@@ -89,7 +91,10 @@ func c32WireActor(k c32Kind, slot int) *internalpb.Actor {
 		Address:     address.New(name, c33System, c33Host, 9099).String(),
 		Type:        types.Name(new(c33Actor)),
 		Relocatable: k.class != c32NonReloc,
-		Role:        k.role,
+	}
+	if k.role != "" {
+		role := k.role
+		a.Role = &role
 	}
 	if k.class == c32Singleton {
 		a.Singleton = &internalpb.SingletonSpec{SpawnTimeout: durationpb.New(0), WaitInterval: durationpb.New(0), MaxRetries: 0}
@@ -200,7 +205,7 @@ func c32HasRole(roles []string, role string) bool {
 
 // c32CheckActors returns (signature, detail) of the first violated clause, or "".
 // leastLoaded: evaluate the least-loaded clause (only meaningful when every assigned entry counts as load).
-func c32CheckActors(targets []c32Target, entries []c32Entry, pl c32Placement, leastLoaded bool) (string, string) {
+func c32CheckActors(targets []c32Target, entries []c32Entry, pl c32Placement, leastLoaded, ordered bool) (string, string) {
 	where := map[string][]int{}
 	for t, list := range pl.perTarget {
 		for _, n := range list {
@@ -304,8 +309,11 @@ func c32CheckActors(targets []c32Target, entries []c32Entry, pl c32Placement, le
 	for t, tg := range targets {
 		loads[t] = tg.base
 	}
-	ptr := make([]int, len(targets))
-	if !c32OrderExists(lists, ptr, loads, kindOf) {
+	taken := make([][]bool, len(targets))
+	for t := range lists {
+		taken[t] = make([]bool, len(lists[t]))
+	}
+	if !c32OrderExists(lists, taken, loads, kindOf, ordered) {
 		return "roleless-actor-not-on-least-loaded-target", fmt.Sprintf("no hand-out order explains placement %v with base loads %v", pl.perTarget, c32Bases(targets))
 	}
 	return "", ""
@@ -319,12 +327,15 @@ func c32Bases(targets []c32Target) []int {
 	return out
 }
 
-func c32OrderExists(lists [][]string, ptr, loads []int, kindOf map[string]c32Kind) bool {
+// c32OrderExists: lists[t] = the plain actors target t received; ordered = each target's list is in the
+// order of reception (otherwise any order within a target is admitted).
+func c32OrderExists(lists [][]string, taken [][]bool, loads []int, kindOf map[string]c32Kind, ordered bool) bool {
 	done := true
 	for t := range lists {
-		if ptr[t] < len(lists[t]) {
-			done = false
-			break
+		for i := range lists[t] {
+			if !taken[t][i] {
+				done = false
+			}
 		}
 	}
 	if done {
@@ -337,20 +348,24 @@ func c32OrderExists(lists [][]string, ptr, loads []int, kindOf map[string]c32Kin
 		}
 	}
 	for t := range lists {
-		if ptr[t] >= len(lists[t]) {
-			continue
-		}
-		n := lists[t][ptr[t]]
-		if kindOf[n].role == "" && loads[t] != minLoad {
-			continue
-		}
-		ptr[t]++
-		loads[t]++
-		ok := c32OrderExists(lists, ptr, loads, kindOf)
-		ptr[t]--
-		loads[t]--
-		if ok {
-			return true
+		for i := range lists[t] {
+			if taken[t][i] {
+				continue
+			}
+			n := lists[t][i]
+			if kindOf[n].role != "" || loads[t] == minLoad {
+				taken[t][i] = true
+				loads[t]++
+				ok := c32OrderExists(lists, taken, loads, kindOf, ordered)
+				taken[t][i] = false
+				loads[t]--
+				if ok {
+					return true
+				}
+			}
+			if ordered {
+				break // only the first not yet received entry of a target may be next
+			}
 		}
 	}
 	return false
@@ -408,41 +423,55 @@ var c32RoleSets = [][]string{nil, {"r1"}, {"r2"}, {"r1", "r2"}}
 
 func c32RoleStr(r []string) string { return "[" + strings.Join(r, ",") + "]" }
 
-// c32Multisets calls f with every non-decreasing index sequence of length 0..maxLen over n symbols.
+// c32Multisets calls f with every non-decreasing index sequence of length 0..maxLen over n symbols (the
+// slice is only valid during the call).
 func c32Multisets(n, maxLen int, f func(sel []int)) {
-	var rec func(sel []int, from int)
-	rec = func(sel []int, from int) {
-		f(sel)
-		if len(sel) == maxLen {
+	buf := make([]int, maxLen)
+	var rec func(depth, from int)
+	rec = func(depth, from int) {
+		f(buf[:depth])
+		if depth == maxLen {
 			return
 		}
 		for i := from; i < n; i++ {
-			rec(append(sel, i), i)
+			buf[depth] = i
+			rec(depth+1, i)
 		}
 	}
-	rec(nil, 0)
+	rec(0, 0)
 }
 
-// c32Sequences calls f with every sequence of length 0..maxLen over n symbols.
+// c32Sequences calls f with every sequence of length 0..maxLen over n symbols (the slice is only valid
+// during the call).
 func c32Sequences(n, maxLen int, f func(sel []int)) {
-	var rec func(sel []int)
-	rec = func(sel []int) {
-		f(sel)
-		if len(sel) == maxLen {
+	buf := make([]int, maxLen)
+	var rec func(depth int)
+	rec = func(depth int) {
+		f(buf[:depth])
+		if depth == maxLen {
 			return
 		}
 		for i := 0; i < n; i++ {
-			rec(append(sel, i))
+			buf[depth] = i
+			rec(depth + 1)
 		}
 	}
-	rec(nil)
+	rec(0)
 }
 
+// c32NameCache: wire records are immutable once built; parsing the address once per record keeps the
+// enumeration cheap (single-threaded use only).
+var c32NameCache = map[*internalpb.Actor]string{}
+
 func c32ActorNameOf(a *internalpb.Actor) string {
+	if n, ok := c32NameCache[a]; ok {
+		return n
+	}
 	n, err := c33ActorName(a)
 	if err != nil {
-		return "?" + a.GetAddress()
+		n = "?" + a.GetAddress()
 	}
+	c32NameCache[a] = n
 	return n
 }
 
@@ -558,7 +587,7 @@ func c32PlanActors(d c32Dispatch) {
 							}
 							pl.perTarget[i] = names
 						}
-						if sig, detail := c32CheckActors(targets, entries, pl, pure); sig != "" {
+						if sig, detail := c32CheckActors(targets, entries, pl, pure, true); sig != "" {
 							e.Fail(sig, input, "%s; placement=%v unplaceable=%v", detail, pl.perTarget, pl.unplaceable)
 						}
 					}
@@ -764,7 +793,7 @@ func c32Redistribute(d c32Dispatch) {
 							pl.unplaceable = append(pl.unplaceable, "?"+f.GetId())
 						}
 					}
-					if sig, detail := c32CheckActors(targets, entries, pl, false); sig != "" {
+					if sig, detail := c32CheckActors(targets, entries, pl, false, true); sig != "" {
 						e.Fail(sig, input, "%s; placement=%v failed=%v", detail, pl.perTarget, pl.unplaceable)
 					}
 					// least-loaded for the redistributed share: the hand-out order is the list order; the
@@ -819,6 +848,342 @@ func c32Redistribute(d c32Dispatch) {
 }
 
 // ---------------------------------------------------------------------------------------------
+// batching: chunk edges and the unsent remainder
+// ---------------------------------------------------------------------------------------------
+
+// c32BatchRem is a transport stub for sendBatches: every attempt for the request at index failAt fails
+// (peer unreachable from that batch on), everything else is acknowledged.
+type c32BatchRem struct {
+	remoteclient.Client
+	requests []*internalpb.RelocateBatchRequest
+	failAt   int
+	got      []*internalpb.RelocateBatchRequest
+	attempts int
+}
+
+func (r *c32BatchRem) RelocateBatch(_ context.Context, _ string, _ int, req *internalpb.RelocateBatchRequest) (*internalpb.RelocateBatchResponse, error) {
+	r.attempts++
+	if r.failAt >= 0 && r.failAt < len(r.requests) && req == r.requests[r.failAt] {
+		return nil, errC33Transport
+	}
+	r.got = append(r.got, req)
+	return &internalpb.RelocateBatchResponse{}, nil
+}
+
+func c32Batching(t *testing.T) {
+	sizes := []int{0, 1, 2, defaultRelocationBatchSize - 1, defaultRelocationBatchSize, defaultRelocationBatchSize + 1,
+		2*defaultRelocationBatchSize - 1, 2 * defaultRelocationBatchSize, 2*defaultRelocationBatchSize + 1}
+	gsizes := []int{0, 1, defaultRelocationBatchSize, defaultRelocationBatchSize + 1}
+	e := vsched.NewEnum("batching", map[string]any{
+		"actors": fmt.Sprint(sizes), "grains(lazy/eager alternating)": fmt.Sprint(gsizes), "failing_batch": "none or every request index",
+		"batch_size": defaultRelocationBatchSize,
+	})
+	defer e.Done()
+	maxA, maxG := sizes[len(sizes)-1], gsizes[len(gsizes)-1]
+	actors := make([]*internalpb.Actor, maxA)
+	for i := range actors {
+		actors[i] = c32WireActor(c32ActorKinds[0], 1000+i)
+	}
+	grains := make([]*internalpb.Grain, maxG)
+	for i := range grains {
+		grains[i] = c32WireGrain(c32GrainKinds[i%2], 1000+i)
+	}
+	p := vfBubble(t, func() {
+		ctx := context.Background()
+		target := &cluster.Peer{Host: c33Host, PeersPort: 8001, RemotingPort: 9001}
+		for _, na := range sizes {
+			for _, ng := range gsizes {
+				nreq := (na+defaultRelocationBatchSize-1)/defaultRelocationBatchSize + (ng+defaultRelocationBatchSize-1)/defaultRelocationBatchSize
+				for failAt := -1; failAt < nreq; failAt++ {
+					if !e.Mine() {
+						continue
+					}
+					input := fmt.Sprintf("actors=%d grains=%d failing-request=%d", na, ng, failAt)
+					requests := buildRelocateBatchRequests(c32Departed, actors[:na], grains[:ng])
+					count := map[string]int{}
+					for _, rq := range requests {
+						if n := len(rq.GetActors()) + len(rq.GetGrains()); n > defaultRelocationBatchSize || n == 0 {
+							e.Fail("batch-size-out-of-bounds", input, "a request carries %d items", n)
+						}
+						for _, a := range rq.GetActors() {
+							count[a.GetAddress()]++
+						}
+						for _, g := range rq.GetGrains() {
+							count[g.GetGrainId().GetValue()]++
+						}
+					}
+					bad := c32CountMismatch(count, actors[:na], grains[:ng])
+					if bad != "" {
+						e.Fail("batching-loses-or-duplicates-item", input, "%s", bad)
+					}
+					rem := &c32BatchRem{requests: requests, failAt: failAt}
+					w := &relocationWorker{remoting: rem, logger: log.DiscardLogger}
+					failures := &relocationFailures{}
+					remaining, err := w.sendBatches(ctx, target, requests, failures)
+					if (err != nil) != (failAt >= 0) {
+						e.Fail("sendbatches-error-mismatch", input, "err=%v", err)
+					}
+					// delivered + unsent = every item exactly once
+					count = map[string]int{}
+					for _, rq := range append(append([]*internalpb.RelocateBatchRequest(nil), rem.got...), remaining...) {
+						for _, a := range rq.GetActors() {
+							count[a.GetAddress()]++
+						}
+						for _, g := range rq.GetGrains() {
+							count[g.GetGrainId().GetValue()]++
+						}
+					}
+					if bad := c32CountMismatch(count, actors[:na], grains[:ng]); bad != "" {
+						e.Fail("delivered-plus-unsent-not-exactly-once", input, "%s (delivered %d requests, unsent %d)", bad, len(rem.got), len(remaining))
+					}
+					// the unsent remainder reported as failed names exactly its actors and eager grains
+					recordUnsent(remaining, errC33Transport, failures)
+					listed := map[string]int{}
+					for _, f := range failures.items() {
+						listed[f.GetId()]++
+					}
+					wantListed := 0
+					for _, rq := range remaining {
+						for _, a := range rq.GetActors() {
+							wantListed++
+							if listed[a.GetAddress()] != 1 {
+								e.Fail("unsent-actor-not-reported-once", input, "%s listed %d times", a.GetAddress(), listed[a.GetAddress()])
+							}
+						}
+						for _, g := range rq.GetGrains() {
+							if g.GetEagerRelocation() {
+								wantListed++
+								if listed[g.GetGrainId().GetValue()] != 1 {
+									e.Fail("unsent-eager-grain-not-reported-once", input, "%s listed %d times", g.GetGrainId().GetValue(), listed[g.GetGrainId().GetValue()])
+								}
+							}
+						}
+					}
+					if len(failures.items()) != wantListed {
+						e.Fail("delivered-item-reported-failed", input, "%d failures for %d unsent reportable items", len(failures.items()), wantListed)
+					}
+					e.Case(input, fmt.Sprintf("requests=%d delivered=%d unsent=%d reported=%d", len(requests), len(rem.got), len(remaining), wantListed), 2, len(requests) >= 2)
+				}
+			}
+		}
+	})
+	if p != nil {
+		t.Fatalf("c32 batching panicked: %v", p)
+	}
+}
+
+func c32CountMismatch(count map[string]int, actors []*internalpb.Actor, grains []*internalpb.Grain) string {
+	want := len(actors) + len(grains)
+	for _, a := range actors {
+		if count[a.GetAddress()] != 1 {
+			return fmt.Sprintf("actor %s occurs %d times", a.GetAddress(), count[a.GetAddress()])
+		}
+	}
+	for _, g := range grains {
+		if count[g.GetGrainId().GetValue()] != 1 {
+			return fmt.Sprintf("grain %s occurs %d times", g.GetGrainId().GetValue(), count[g.GetGrainId().GetValue()])
+		}
+	}
+	if len(count) != want {
+		return fmt.Sprintf("%d distinct items for %d inputs", len(count), want)
+	}
+	return ""
+}
+
+// ---------------------------------------------------------------------------------------------
+// relocate: end to end on a bubble cluster
+// ---------------------------------------------------------------------------------------------
+
+var c32E2EKinds = []c32Kind{
+	{"P-", c32Plain, ""}, {"P1", c32Plain, "r1"}, {"P3", c32Plain, "r3"},
+	{"S-", c32Singleton, ""}, {"N-", c32NonReloc, ""}, {"Y-", c32SystemEnt, ""},
+}
+
+var c32E2EGrainSets = [][]int{nil, {0}, {0, 2}, {0, 0, 3}, {0, 0, 0, 0, 2}} // indexes into c32GrainKinds (no eager: no grain kind is registered)
+
+var c32E2ERoleSets = [][]string{nil, {"r1"}}
+
+func c32Relocate(t *testing.T) {
+	maxPeers := 2
+	maxActors := vsched.Pick(2, 3)
+	loadRadix := vsched.Pick(2, 3)
+	e := vsched.NewEnum("relocate", map[string]any{
+		"peers": "0..2", "role_sets": "{} or {r1} for the leader and every peer", "base_loads": fmt.Sprintf("0..%d registry records per target", loadRadix-1),
+		"actors": fmt.Sprintf("multisets of size 0..%d over %d kinds", maxActors, len(c32E2EKinds)), "grain_sets": len(c32E2EGrainSets),
+		"what": "real handleNodeLeftEvent -> relocator -> relocationWorker.relocate -> (fake transport) -> real relocateBatchHandler, stale registry records, snapshot in the leader's store",
+	})
+	defer e.Done()
+	for n := 0; n <= maxPeers; n++ {
+		nt := n + 1
+		roleIdx := make([]int, nt)
+		for {
+			loads := make([]int, nt)
+			for {
+				for gsi, gset := range c32E2EGrainSets {
+					c32Multisets(len(c32E2EKinds), maxActors, func(sel []int) {
+						if !e.Mine() {
+							return
+						}
+						sel = append([]int(nil), sel...)
+						c32RelocateCase(t, e, roleIdx, loads, gsi, gset, sel)
+					})
+				}
+				if !c32Inc(loads, loadRadix) {
+					break
+				}
+			}
+			if !c32Inc(roleIdx, len(c32E2ERoleSets)) {
+				break
+			}
+		}
+	}
+}
+
+func c32RelocateCase(t *testing.T, e *vsched.Enum, roleIdx, loads []int, gsi int, gset, sel []int) {
+	nt := len(roleIdx)
+	targets := make([]c32Target, nt)
+	roleSets := make([][]string, nt)
+	var tdesc []string
+	for i := range targets {
+		targets[i] = c32Target{roles: c32E2ERoleSets[roleIdx[i]], base: loads[i]}
+		roleSets[i] = targets[i].roles
+		tdesc = append(tdesc, fmt.Sprintf("%s%d", c32RoleStr(targets[i].roles), loads[i]))
+	}
+	var entries []c32Entry
+	kindOf := map[string]c32Kind{}
+	var wire []*internalpb.Actor
+	var codes []string
+	pure := true
+	for s, ki := range sel {
+		k := c32E2EKinds[ki]
+		a := c32WireActor(k, s)
+		wire = append(wire, a)
+		name := c32ActorNameOf(a)
+		entries = append(entries, c32Entry{name: name, kind: k})
+		kindOf[name] = k
+		codes = append(codes, k.code)
+		if k.class == c32NonReloc || k.class == c32SystemEnt {
+			pure = false
+		}
+	}
+	gkinds := map[string]c32GrainKind{}
+	var gwire []*internalpb.Grain
+	var gcodes []string
+	for s, gi := range gset {
+		g := c32WireGrain(c32GrainKinds[gi], s)
+		gwire = append(gwire, g)
+		gkinds[g.GetGrainId().GetValue()] = c32GrainKinds[gi]
+		gcodes = append(gcodes, c32GrainKinds[gi].code)
+	}
+	input := fmt.Sprintf("targets(leader first) %s | actors %s | grains %s", strings.Join(tdesc, " "), strings.Join(codes, ","), strings.Join(gcodes, ","))
+
+	var pl c32Placement
+	var gper [][]string
+	var failedEvents, incomplete int
+	p := vfBubble(t, func() {
+		ctx := context.Background()
+		w := c33NewWorld(roleSets)
+		leader := w.nodes[0]
+		sub, err := leader.sys.Subscribe()
+		if err != nil {
+			panic(err)
+		}
+		// current loads: registry records of actors living on the targets
+		for ti, nd := range w.nodes {
+			for j := 0; j < loads[ti]; j++ {
+				pad := &internalpb.Actor{Address: address.New(fmt.Sprintf("pad-%d-%d", ti, j), c33System, c33Host, nd.remotingPort).String(), Type: types.Name(new(c33Actor)), Relocatable: true}
+				_ = nd.cl.PutActor(ctx, pad)
+			}
+		}
+		state := &internalpb.PeerState{Host: c33Host, PeersPort: 8099, RemotingPort: 9099, Actors: map[string]*internalpb.Actor{}, Grains: map[string]*internalpb.Grain{}}
+		for _, a := range wire {
+			state.Actors[a.GetAddress()] = a
+			_ = leader.cl.PutActor(ctx, a) // stale registry record pointing at the departed node
+		}
+		for _, g := range gwire {
+			state.Grains[g.GetGrainId().GetValue()] = g
+			_ = leader.cl.PutGrain(ctx, g)
+		}
+		for _, nd := range w.nodes {
+			_ = nd.sys.clusterStore.PersistPeerState(ctx, state)
+			nd.sys.peerRemotingPorts.Set("127.0.0.1:8099", 9099)
+		}
+		w.mu.Lock()
+		w.getActorBy, w.getGrainBy = map[string][]int{}, map[string][]int{}
+		w.mu.Unlock()
+		ev := &cluster.Event{Type: cluster.NodeLeft, Payload: &cluster.NodeLeftEvent{Address: "127.0.0.1:8099", Timestamp: time.Now().UTC()}}
+		for _, nd := range w.nodes {
+			nd.sys.handleNodeLeftEvent(ev)
+		}
+		vfSettle()
+		for i := 0; i < 200; i++ { // let retry/backoff timers (virtual) run out
+			if _, inFlight := leader.sys.relocationJob("127.0.0.1:8099"); !inFlight {
+				break
+			}
+			time.Sleep(time.Second)
+			vfSettle()
+		}
+		if _, inFlight := leader.sys.relocationJob("127.0.0.1:8099"); inFlight {
+			incomplete = 1
+		}
+		pl.perTarget = make([][]string, nt)
+		for _, en := range entries {
+			for _, ti := range w.runningOn(en.name) {
+				pl.perTarget[ti] = append(pl.perTarget[ti], en.name)
+			}
+		}
+		for m := range sub.Iterator() {
+			if f, ok := m.Payload().(*RelocationFailed); ok {
+				failedEvents++
+				for _, id := range f.Actors() {
+					if addr, err := address.Parse(id); err == nil {
+						pl.unplaceable = append(pl.unplaceable, addr.Name())
+					} else {
+						pl.unplaceable = append(pl.unplaceable, "?"+id)
+					}
+				}
+			}
+		}
+		gper = make([][]string, nt)
+		w.mu.Lock()
+		for id, by := range w.getGrainBy {
+			for _, ti := range by {
+				gper[ti] = append(gper[ti], id)
+			}
+		}
+		w.mu.Unlock()
+		for ti := range gper {
+			sort.Strings(gper[ti])
+		}
+		w.stopAll()
+	})
+	if p != nil {
+		e.Fail("relocation-panicked", input, "%v", p)
+		e.Case(input, "panic", 1, true)
+		return
+	}
+	if incomplete != 0 {
+		e.Fail("relocation-job-never-released", input, "the relocation job is still registered after 200 virtual seconds")
+	}
+	if sig, detail := c32CheckActors(targets, entries, pl, pure, false); sig != "" {
+		e.Fail(sig, input, "%s; running=%v failed-event-actors=%v", detail, pl.perTarget, pl.unplaceable)
+	}
+	if sig, detail := c32CheckGrains(nt, gkinds, gper); sig != "" {
+		e.Fail(sig, input, "%s; handled-by=%v", detail, gper)
+	}
+	var nRun int
+	for _, l := range pl.perTarget {
+		nRun += len(l)
+	}
+	var gsz []int
+	for _, l := range gper {
+		gsz = append(gsz, len(l))
+	}
+	obs := fmt.Sprintf("targets=%d running=%d reported=%v failed-events=%d grain-shares=%v roles=%s", nt, nRun, pl.unplaceable, failedEvents, gsz, c32RoleKey(targets, entries))
+	e.Case(input, obs, 1, len(sel) >= 2 && nt >= 2)
+}
+
+// ---------------------------------------------------------------------------------------------
 // TestVerifC32
 // ---------------------------------------------------------------------------------------------
 
@@ -833,4 +1198,6 @@ func TestVerifC32(t *testing.T) {
 	c32PlanActors(d)
 	c32PlanGrains(d)
 	c32Redistribute(d)
+	c32Batching(t)
+	c32Relocate(t)
 }
